@@ -108,3 +108,25 @@ def stale_probe_result_after_the_deploy():
     d2["targets"][0]["probes"] = ["slow:%d:500" % (3 * SEC // 2), "ok"]
     return {"steps": [dep("c1", [b"ta:80"]), d2, {"op": "sleep", "ns": 16 * SEC // 10}, req("r1"), {"op": "sleep", "ns": SEC // 5},
                       req("r2"), {"op": "sleep", "ns": SEC // 10}, req("r3"), {"op": "sleep", "ns": 3 * SEC}, req("r4")]}
+
+
+def pause_after_stop_still_holds(first_pause=False):
+    """stop, then pause WITHOUT a resume in between (optionally pause, stop, pause): the second command's gate must hold
+    the requests that arrive afterwards - nothing reaches the drained targets until the resume"""
+    pre = [{"op": "pause", "id": "c2", "name": H(b"web"), "fail_after": 10 * SEC, "drain_timeout": SEC}] if first_pause else []
+    return {"steps": [dep("c1", [b"ta:80"])] + pre + [
+        {"op": "stop", "id": "c3", "name": H(b"web"), "msg": H(b"stopped"), "drain_timeout": SEC}, {"op": "sleep", "ns": SEC},
+        {"op": "pause", "id": "c4", "name": H(b"web"), "fail_after": 2 * SEC, "drain_timeout": SEC}, {"op": "sleep", "ns": SEC // 10},
+        req("r1"), {"op": "sleep", "ns": SEC}, req("r2"), {"op": "sleep", "ns": 3 * SEC},
+        {"op": "resume", "id": "c5", "name": H(b"web")}, req("r3"), {"op": "sleep", "ns": SEC}]}
+
+
+def rollout_redeploy_grants_the_drain_timeout(deploy_timeout=SEC, drain_timeout=5 * SEC):
+    """a second `rollout deploy` replaces rollout targets that have a request in flight: the replaced rollout balancer
+    must be drained with the command's DRAIN timeout (not its deploy timeout)"""
+    rd = lambda cid, t: {"op": "rollout_deploy", "id": cid, "name": H(b"web"), "targets": [{"name": H(t), "probes": ["ok"]}],
+                         "deploy_timeout": deploy_timeout, "drain_timeout": drain_timeout}
+    rs = {"op": "rollout_set", "id": "c3", "name": H(b"web"), "pct": 100, "allow": []}
+    r = dict(req("r1", "delay:%d" % (3 * SEC)), headers=[[H(b"Cookie"), H(b"kamal-rollout=alice")]])
+    return {"steps": [dep("c1", [b"ta:80"]), rd("c2", b"tr:80"), rs, r, {"op": "sleep", "ns": SEC // 10}, rd("c4", b"ts:80"),
+                      {"op": "sleep", "ns": 6 * SEC}]}
